@@ -2,7 +2,7 @@
    Only property theorems (closed by [exact]), [Print Assumptions] and non-vacuity examples.
    Model: Model/Deletion.v ([step true] = the code with fixes/C15-create-storage-tombstone.patch applied,
    [step false] = the code as found); proofs: Proofs/DeletionBase.v, DeletionInv.v, DeletionTheorems.v,
-   DeletionSettings.v.  Histories are arbitrary operation lists ([run] = fold_left of [step] from the empty space);
+   DeletionSettings.v, DeletionWorker.v.  Histories are arbitrary operation lists ([run] = fold_left of [step] from the empty space);
    restarts, worker runs cancelled after any number of tree-manager calls, failing tree managers, late re-delivery
    of any earlier head-storage notification and a deletion racing a remote fetch / a put at any stage (recorded as
    queued or as deleted) are operations of the alphabet.
@@ -14,7 +14,8 @@
    The semantic content of the other conjuncts of spec_C15 is the theorems below. *)
 From Coq Require Import List NArith Bool Permutation.
 Import ListNotations.
-From AnySync Require Import Model.Deletion Proofs.DeletionBase Proofs.DeletionInv Proofs.DeletionTheorems Proofs.DeletionSettings.
+From AnySync Require Import Model.Deletion Proofs.DeletionBase Proofs.DeletionInv Proofs.DeletionTheorems Proofs.DeletionSettings
+  Proofs.DeletionWorker.
 Open Scope N_scope.
 
 (* ---- durable status never decreases, over all op sequences and restart points *)
@@ -175,6 +176,43 @@ Example c15_children_follow_nonvacuous :
   (* a child that was never marked (parent deleted by a worker cancelled before the children): queued on restart *)
   status 4 (run true [OpPut 3 0 false; OpPut 4 3 false; OpSettings [3]; OpWorker [3] 1 []] init) = 0 /\
   status 4 (run true [OpPut 3 0 false; OpPut 4 3 false; OpSettings [3]; OpWorker [3] 1 []; OpRestart] init) = 1.
+Proof. vm_compute. repeat split; reflexivity. Qed.
+
+(* ---- children follow within one worker run: from every reachable state, a run of deleter.Delete that was not
+   cancelled ([worker_calls .. < k]: fewer tree-manager calls were made than the context allows) and whose tree manager
+   does not fail fully deletes every id [p] it found queued, and every BOUND CHILD [c] of [p] that has a heads entry
+   (an entry naming [p] as its parent - what GetEntriesByParentId returns), whether or not [c] was ever queued itself
+   (deleteBoundChildren: NotDeleted -> Deleted directly, e.g. after a deletion record that lists the parent only).  The
+   child is then observed as deleted, NOT ADVERTISED in the head index, with nothing stored, known to the deletion state.
+   (A run cancelled between a parent and its children leaves them to the orphan scan of the next start: see
+   c15_children_follow_nonvacuous.) *)
+Theorem c15_worker_children_follow : forall ops order k p,
+  let s := run true ops init in
+  worker_calls order k [] s < k -> memb p (mq s) = true -> memb p order = true ->
+  status p (worker order k [] s) = 2 /\
+  forall c, p <> 0 -> has_entry c s = true -> e_parent (get c s) = p ->
+    status c (worker order k [] s) = 2 /\ memb c (idx (worker order k [] s)) = false /\
+    has_chg c (worker order k [] s) = false /\ observe1 (worker order k [] s) c = mkO 3 false 0 true.
+Proof. exact worker_children_follow. Qed.
+Print Assumptions c15_worker_children_follow.
+
+(* parent 1 and its derived child 2, both advertised (one change besides the root each), unrelated object 3; the
+   deletion record lists the parent only; one complete worker run: parent Queued -> Deleted, child NotDeleted -> Deleted
+   directly; both leave the index, 3 stays; the observed trace of that history satisfies spec_C15, and the same trace
+   with the child still advertised after the run (the child's only tombstone notification lost on the way to the
+   index) does not *)
+Example c15_worker_children_follow_nonvacuous :
+  let ops := [OpPut 1 0 false; OpHead 1 1001; OpPut 2 1 true; OpHead 2 1002; OpPut 3 0 false; OpHead 3 1003; OpSettings [1]] in
+  let s := run true ops init in
+  (worker_calls [1] never [] s <? never) = true /\ memb 1 (mq s) = true /\ e_parent (get 2 s) = 1 /\
+  observe [1; 2; 3] s = [mkO 2 false 2 true; mkO 1 true 2 false; mkO 1 true 2 false] /\
+  observe [1; 2; 3] (worker [1] never [] s) = [mkO 3 false 0 true; mkO 3 false 0 true; mkO 1 true 2 false] /\
+  spec_C15 [1; 2; 3] (ops ++ [OpWorker [1] never []]) (trace true [1; 2; 3] (ops ++ [OpWorker [1] never []]) init) = true /\
+  spec_C15 [1; 2; 3] (ops ++ [OpWorker [1] never []])
+    (trace true [1; 2; 3] ops init ++ [(OWorker [1], [mkO 3 false 0 true; mkO 3 true 0 true; mkO 1 true 2 false])]) = false /\
+  (* the child left untouched by the run (deleteBoundChildren skipped): refused by the children clause *)
+  spec_C15 [1; 2; 3] (ops ++ [OpWorker [1] never []])
+    (trace true [1; 2; 3] ops init ++ [(OWorker [1], [mkO 3 false 0 true; mkO 1 true 2 false; mkO 1 true 2 false])]) = false.
 Proof. vm_compute. repeat split; reflexivity. Qed.
 
 (* ---- restart-stable *)
